@@ -35,6 +35,7 @@ from mujoco_warp._src.types import DisableBit
 from mujoco_warp._src.types import EnableBit
 from mujoco_warp._src.types import GeomType
 from mujoco_warp._src.types import Model
+from mujoco_warp._src.types import OverflowType
 from mujoco_warp._src.types import SleepState
 from mujoco_warp._src.types import mat23
 from mujoco_warp._src.types import mat63
@@ -881,6 +882,24 @@ def _narrowphase(m: Model, d: Data, ctx: CollisionContext):
     sdf_narrowphase(m, d, ctx)
 
 
+@wp.kernel
+def _collision_overflow(
+  # Data in:
+  naconmax_in: int,
+  nacon_in: wp.array[int],
+  ncollision_in: wp.array[int],
+  # Data out:
+  overflow_out: wp.array[int],
+):
+  worldid = wp.tid()
+
+  if ncollision_in[0] > naconmax_in:
+    overflow_out[worldid] = overflow_out[worldid] | OverflowType.BROADPHASE
+
+  if nacon_in[0] > naconmax_in:
+    overflow_out[worldid] = overflow_out[worldid] | OverflowType.NARROWPHASE
+
+
 @event_scope
 def collision(
   m: Model,
@@ -937,6 +956,10 @@ def collision(
   # It therefore only runs on the full pass.
   if m.nflex > 0 and not incremental:
     flex_collision(m, d, ctx)
+
+  # report capacity overflow of this pass: the counters are reset by the next pass (incremental sleeping
+  # pass, next Runge-Kutta stage) before step() looks at them
+  wp.launch(_collision_overflow, dim=d.nworld, inputs=[d.naconmax, d.nacon, d.ncollision], outputs=[d.overflow])
 
   if m.callback.contactfilter:
     m.callback.contactfilter(m, d)
